@@ -327,26 +327,59 @@ def rule_store(R):
         R.ob("store/%s" % name, okc, "%s forwards the written count and the packet length unchanged" % name, where=b.span)
     cm = roles.conn_methods(f)
     pb, pcode = cm["perform_outbound_step"]
-    swc = [c for c in pcode.calls.values() if c.bb in pcode.reachable and c.is_("set_written") and roles.self_is(f.bodies[f.call_targets(c)[0]], CONN)] \
-        if True else []
-    okp = False
-    for c in swc:
-        t = peel(pcode.operand_term(c.args[2]))
+    setters = [roles.method(f, OUTBOUND, nm) for nm in ("set_control_written", "set_retained_written", "set_release_written")]
+
+    def written_sinks(code, depth=0):
+        """(call, term of the value that ends up as a setter's `written` argument, setter names) for the calls of `code`
+        that reach a setter directly or through a function that forwards one of its own parameters"""
+        out = []
+        for c in code.calls.values():
+            if c.bb not in code.reachable:
+                continue
+            tg = f.call_targets(c)
+            hit = [s_ for s_ in setters if s_.name in tg]
+            if hit and len(c.args) > 2:
+                out.append((c, code.operand_term(c.args[2]), set(s_.fn_name for s_ in hit)))
+                continue
+            if depth >= 2:
+                continue
+            for g in tg:
+                gb = f.bodies.get(g)
+                if gb is None or gb.name == code.name or gb.kind not in ("fn", "assoc_fn") or gb.is_async:
+                    continue
+                for (c2, t2, names) in written_sinks(f.code(gb), depth + 1):
+                    t2p = peel(t2)
+                    idx = None
+                    if t2p[0] == "param":
+                        for k in range(1, gb.arg_count + 1):
+                            if gb.param_name(k) == t2p[1]:
+                                idx = k - 1
+                    out.append((c, code.operand_term(c.args[idx]) if idx is not None and idx < len(c.args) else ("opaque", g), names))
+        return out
+
+    def is_count(y):
+        r, nm = chain(y)
+        r = peel(r)
+        if isinstance(r, tuple) and r[0] == "await":
+            r = peel(r[1])
+        return (is_call(r, "write_current") or (isinstance(r, tuple) and r[0] == "call" and r[4] == IO_WRITE)) and nm == ["@Ok", "0"]
+
+    sinks = written_sinks(pcode)
+    reached = set()
+    okp = bool(sinks)
+    for (c, t, names) in sinks:
+        reached |= names
+        t = peel(t)
         # written_before + count
         if t[0] == "field":
             t = t[1]
+        good = False
         if isinstance(t, tuple) and t[0] == "bin" and t[1].startswith("Add"):
             a, b2 = t[2], t[3]
-            names = [chain(a)[1][-1:], chain(b2)[1][-1:]]
-            def is_count(y):
-                r, nm = chain(y)
-                r = peel(r)
-                if isinstance(r, tuple) and r[0] == "await":
-                    r = peel(r[1])
-                return (is_call(r, "write_current") or (isinstance(r, tuple) and r[0] == "call" and r[4] == IO_WRITE)) and nm == ["@Ok", "0"]
-            has_count = is_count(a) or is_count(b2)
-            has_before = ["written"] in names
-            okp = has_count and has_before
+            names2 = [chain(a)[1][-1:], chain(b2)[1][-1:]]
+            good = (is_count(a) or is_count(b2)) and ["written"] in names2
+        okp = okp and good
+    okp = okp and reached == set(s_.fn_name for s_ in setters)
     R.ob("store/step-accumulates", okp,
          "perform_outbound_step records written_before + count of the write that just completed", where=pb.span)
 
